@@ -91,6 +91,10 @@ theorem earlyExitSites_reviewed : CV.Gen.Static.earlyExitSites = CV.Det.Spec.rev
 /-- the package-level variables written outside `init` are exactly the reviewed ones -/
 theorem globalWrites_reviewed : CV.Gen.Static.globalWrites = CV.Det.Spec.reviewedGlobalWrites := by decide
 
+/-- no loop over a Go map carries a function-local map from one iteration to the next (no cache or "seen" set read and
+written under a key that ignores the loop's key variable): the order of iteration cannot reach a result that way -/
+theorem loopCarriedMaps_reviewed : CV.Gen.Static.loopCarriedMaps = CV.Det.Spec.reviewedLoopCarriedMaps := by decide
+
 /-- the package-level variables of the library (any state that could survive a load) are exactly the reviewed ones -/
 theorem packageVars_reviewed : CV.Gen.Static.packageVars = CV.Det.Spec.reviewedPackageVars := by decide
 
